@@ -314,4 +314,38 @@ Proof.
   rewrite EH, EW in I1, I2 |- *.
   exact (assemble h s0' s0b' l3' ds0 ds1_j1 d0 d1 dx p1' p2' p3' cot2 cot3 ph1 C H4 W4 n c HC Hc ltac:(unfold H4; lia) ltac:(unfold W4; lia) I1 I2 I3).
 Qed.
+
+(* the forward equations assumed by scat_j2_vjp always have solutions on images whose sides are multiples of 8 *)
+Lemma is_ok_ex {A} (r:res A) (P:A->Prop) : is_ok r P -> exists a, r = Ok a /\ P a.
+Proof. destruct r as [a|e]; cbn [is_ok]; [intros H; exists a; split; [reflexivity | exact H] | contradiction]. Qed.
+
+Theorem scat_j2_forward_total (x h:ten) : 8 <= tH x -> tH x mod 8 = 0 -> 8 <= tW x -> tW x mod 8 = 0 -> 0 < tC x ->
+  tN h = tN x -> tC h = tC x -> tH h = tH x -> tW h = tW x ->
+  exists s0 p1 s0b p2 l3 p3 s0' p1' s0b' p2' l3' p3',
+    fwd_j1 Op s x L0 h0 L1 h1 false M_SYMM = Ok (s0, p1) /\
+    fwd_j2plus Op s s0 L h0a h0b L h1a h1b false = Ok (s0b, p2) /\
+    fwd_j1 Op s (force Op (mags Op X b (tC x) p1)) L0 h0 L1 h1 false M_SYMM = Ok (l3, p3) /\
+    fwd_j1 Op s h L0 h0 L1 h1 false M_SYMM = Ok (s0', p1') /\
+    fwd_j2plus Op s s0' L h0a h0b L h1a h1b false = Ok (s0b', p2') /\
+    fwd_j1 Op s (linmag (tC x) (phases Op X b false (tC x) p1) p1') L0 h0 L1 h1 false M_SYMM = Ok (l3', p3').
+Proof.
+  intros HH HH8 HW HW8 HC N1 N2 N3 N4.
+  destruct (is_ok_ex _ _ (fwd_j1_shapes Op Rth X L0 L1 h0 h1 HL0 HL1 x ltac:(lia) ltac:(lia) ltac:(lia) ltac:(lia) HC)) as ([s0 p1] & E1 & (a1 & a2 & a3 & a4) & Lp1 & Sp1).
+  cbn [fst snd] in *.
+  destruct (is_ok_ex _ _ (fwd_j2plus_shapes s0 ltac:(lia) ltac:(lia) ltac:(lia) ltac:(lia) ltac:(lia))) as ([s0b p2] & E2 & _).
+  set (s1 := force Op (mags Op X b (tC x) p1)).
+  assert (Ss1: tN s1 = tN x /\ tC s1 = 6 * tC x /\ tH s1 = tH x / 2 /\ tW s1 = tW x / 2).
+  { destruct (Sp1 0%nat dz ltac:(lia)) as (q1 & q2 & q3 & q4). unfold s1, mags. cbn [force tN tC tH tW]. unfold pl. change (Z.to_nat (2*0+0)) with 0%nat. repeat split; lia. }
+  destruct Ss1 as (b1 & b2 & b3 & b4).
+  destruct (is_ok_ex _ _ (fwd_j1_shapes Op Rth X L0 L1 h0 h1 HL0 HL1 s1 ltac:(lia) ltac:(lia) ltac:(lia) ltac:(lia) ltac:(lia))) as ([l3 p3] & E3 & _).
+  destruct (is_ok_ex _ _ (fwd_j1_shapes Op Rth X L0 L1 h0 h1 HL0 HL1 h ltac:(lia) ltac:(lia) ltac:(lia) ltac:(lia) ltac:(lia))) as ([s0' p1'] & E4 & (c1 & c2 & c3 & c4) & Lp1' & Sp1').
+  cbn [fst snd] in *.
+  destruct (is_ok_ex _ _ (fwd_j2plus_shapes s0' ltac:(lia) ltac:(lia) ltac:(lia) ltac:(lia) ltac:(lia))) as ([s0b' p2'] & E5 & _).
+  set (s1' := linmag (tC x) (phases Op X b false (tC x) p1) p1').
+  assert (Ss1': tN s1' = tN x /\ tC s1' = 6 * tC x /\ tH s1' = tH x / 2 /\ tW s1' = tW x / 2).
+  { destruct (Sp1' 0%nat dz ltac:(lia)) as (q1 & q2 & q3 & q4). unfold s1', linmag. cbn [tN tC tH tW]. unfold pl. change (Z.to_nat (2*0+0)) with 0%nat. repeat split; lia. }
+  destruct Ss1' as (d1' & d2' & d3' & d4').
+  destruct (is_ok_ex _ _ (fwd_j1_shapes Op Rth X L0 L1 h0 h1 HL0 HL1 s1' ltac:(lia) ltac:(lia) ltac:(lia) ltac:(lia) ltac:(lia))) as ([l3' p3'] & E6 & _).
+  exists s0, p1, s0b, p2, l3, p3, s0', p1', s0b', p2', l3', p3'. repeat split; assumption.
+Qed.
 End S.
